@@ -12,11 +12,27 @@ def rscalar(rng, lo=1, hi=None):
 
 
 def edge_keys():
-    return [1, 2, 3, N - 2, N - 3, (1 << 255) + 1, (1 << 64) - 1, 1 << 192, int('f' * 16 + '0' * 16 + 'f' * 16 + '0' * 15 + '1', 16) % (N - 2) + 1]
+    # 1, 2, n-2; sparse / dense limbs; keys whose low limbs are all ones (carry chains in 1 + d) and multiples of 2^251 (Montgomery corner)
+    return [1, 2, 3, N - 2, N - 3, (1 << 255) + 1, (1 << 64) - 1, 1 << 192, int('f' * 16 + '0' * 16 + 'f' * 16 + '0' * 15 + '1', 16) % (N - 2) + 1,
+            (1 << 128) - 1, (0x1234567 << 128) | ((1 << 128) - 1), (1 << 192) - 1, (1 << 255) - 1, 1 << 251, (1 << 252) - 1, 31 << 251, 5 * (1 << 251) - 1,
+            (1 << 64), (1 << 128), (1 << 255)]
+
+
+def small_x_points():
+    """curve points with a tiny x (so that x + p < 2^256 is an out-of-range encoding of the same residue)"""
+    out = []
+    x = 0
+    while len(out) < 4:
+        y = E.lift_x(x)
+        if y is not None:
+            out.append((x, y))
+        x += 1
+    return out
 
 
 def ids(rng, tier):
-    out = ['default', hx(b''), hx(b'A'), hx(b'ALICE123@YAHOO.COM'), hx(b'x' * 8191)]
+    out = ['default', hx(b''), hx(b'A'), hx(b'ALICE123@YAHOO.COM'), hx(b'x' * 8191),
+           hx('Zo\u00eb@example.org'.encode()), hx('\u7231\u4e3d\u4e1d'.encode()), hx('ali\u0107e'.encode()), hx('\U0001f600id'.encode())]
     for _ in range(3 if tier == 'thorough' else 1):
         out.append(hx(bytes(rng.randrange(0x20, 0x7f) for _ in range(rng.randint(1, 300)))))
     return out
@@ -58,6 +74,8 @@ def gen_c03(tier, rng):
             yield ('openssl-corpus-verify', 'sm2_verify %s %s %s %s%s' % (kc[idx][2], idh, msg, r, s), 'OK')
     keys = edge_keys() + [rscalar(rng, 1, N - 1) for _ in range(6 if tier == 'thorough' else 2)]
     idl = ids(rng, tier)
+    for idh in idl:
+        yield ('id-classes', 'sm2_sign %s %s %s %s' % (H(rscalar(rng, 1, N - 1)), idh, hx(b'id-test'), good_k(rng)), None)
     lens = list(range(0, 70)) + [127, 128, 1000, 4096] if tier == 'thorough' else [0, 1, 31, 32, 33, 55, 56, 64, 200]
     for d in keys:
         for ln in (lens if d in keys[:3] or tier == 'thorough' else lens[:4]):
@@ -139,6 +157,22 @@ def gen_c04(tier, rng):
         # through the hashed interface: altered message / id
         if i < 3 or tier == 'thorough':
             yield ('random-sig', 'sm2_verify %s %s %s %s' % (pk, idh, hx(msg), rb(rng, 64).hex()), None)
+    # [s]G + [t]P = O: s = -r d (1+d)^-1 with r = e mod n (the key owner can craft this; a conforming verifier rejects)
+    for _ in range(6 if tier == 'thorough' else 2):
+        d = rscalar(rng, 1, N - 1)
+        e = rng.getrandbits(256)
+        r = e % N
+        s_ = (-r * d * pow(1 + d, -1, N)) % N
+        if r and s_:
+            yield ('sum-is-infinity', 'sm2_verify_raw %s %s %s%s' % (E.enc(E.mul(d, E.G)), H(e), H(r), H(s_)), None)
+        # [s]G = [t]P (equal summands: the doubling branch of point_add inside verify): s = r d (1-d)^-1
+        s2 = (r * d * pow(1 - d, -1, N)) % N
+        if r and s2:
+            yield ('summands-equal', 'sm2_verify_raw %s %s %s%s' % (E.enc(E.mul(d, E.G)), H(e), H(r), H(s2)), None)
+    for idh in ids(rng, tier)[5:]:
+        d = rscalar(rng, 1, N - 1)
+        yield ('non-ascii-id', 'sm2_sv %s %s %s %s' % (H(d), idh, hx(b'msg'), good_k(rng)), None)
+        yield ('non-ascii-id', 'sm2_sign %s %s %s %s' % (H(d), idh, hx(b'msg'), good_k(rng)), None)
     for _ in range(200 if tier == 'thorough' else 12):
         pk = E.enc(E.mul(rscalar(rng), E.G), rng.random() < 0.5)
         yield ('random-pair', 'sm2_verify_raw %s %s %s%s' % (pk, H(rng.getrandbits(256)), H(rscalar(rng)), H(rscalar(rng))), None)
@@ -163,7 +197,7 @@ def gen_c05(tier, rng):
     for klen in range(0, maxk + 1):
         z = rb(rng, rng.choice([0, 1, 32, 64, 64, 100]))
         yield ('kdf-klen' + ('-mult32' if klen % 32 == 0 else ''), 'sm2_kdf %s %d' % (hx(z), klen), None)
-    for klen in (1024, 4096, 65536) if tier == 'thorough' else (1024,):
+    for klen in (1024, 4096, 8160, 8161, 8192, 8300, 16384, 65536) if tier == 'thorough' else (1024, 8160, 8161, 8300):
         yield ('kdf-long', 'sm2_kdf %s %d' % (hx(rb(rng, 64)), klen), None)
     d = rscalar(rng, 1, N - 1)
     pk = E.enc(E.mul(d, E.G))
@@ -188,6 +222,7 @@ def gen_c05(tier, rng):
         yield ('retry-all-zero-t-search', 'sm2_enc %s 5a 0 c1c3c2 %s' % (pk, cands), None)
     for _ in range(10 if tier == 'thorough' else 2):
         yield ('random-long', 'sm2_ed %s %s 0 c1c3c2 %s' % (H(d), hx(rb(rng, rng.randint(301, 5000))), good_k(rng)), None)
+    yield ('message>8160-bytes', 'sm2_enc %s %s 0 c1c3c2 %s' % (pk, hx(rb(rng, 9000)), good_k(rng)), None)
     yield ('nonce-out-of-range', 'sm2_enc %s %s 0 c1c3c2 %s' % (pk, hx(b'hello'), ','.join(['00' * 32, H(N), 'ff' * 32, good_k(rng)])), None)
 
 
@@ -236,6 +271,9 @@ def gen_c06(tier, rng):
         if Q[0] + P < (1 << 256):
             yield ('c1-coord>=p', base + ' c1 04%s%s' % (H(Q[0] + P), H(Q[1])), None)
         yield ('c1-coord>=p', base + ' c1 04%s%s' % (H(P), H(Q[1])), None)
+        for (sx, sy) in small_x_points():
+            yield ('c1-coord>=p-same-residue', base + ' c1 04%s%s' % (H(sx + P), H(sy)), None)
+            yield ('c1-small-x-valid', base + ' c1 04%s%s' % (H(sx), H(sy)), None)
         yield ('c1-other-valid-point', base + ' c1 %s' % E.enc(Q, comp == '1'), None)
         yield ('c1-infinity-encoding', base + ' c1 00', None)
         yield ('c1-wrong-format-for-mode', base + ' c1 %s' % E.enc(Q, comp != '1'), None)
@@ -298,6 +336,11 @@ def gen_c11(tier, rng):
         cases = [('add-generic', A, Bp, z1, z2), ('add-equal-same-Z', A, A, z1, z1), ('add-equal-different-Z', A, A, z1, z2),
                  ('add-opposite', A, E.neg(A), z1, z2), ('add-inf-left', None, A, 1, z2), ('add-inf-right', A, None, z1, 1),
                  ('add-inf-inf', None, None, 1, 1), ('add-affine-Z=1', A, Bp, 1, 1)]
+        # (X, Y, Z) and (X, Y, -Z): identical X and Y limbs, the second denotes -P
+        jx = E.jac(A, z1).split(':')
+        negz = ':'.join([jx[0], jx[1], H((P - z1) * E.R % P)])
+        yield ('add-same-XY-negated-Z', 'pt_add %s %s' % (':'.join(jx), negz), None)
+        yield ('add-same-XY-negated-Z', 'pt_add %s %s' % (negz, ':'.join(jx)), None)
         for label, X, Y, za, zb in cases:
             yield (label, 'pt_add %s %s' % (E.jac(X, za), E.jac(Y, zb)), None)
             yield (label + '-raw', 'pt_add_raw %s %s' % (E.jac(X, za), E.jac(Y, zb)), None)
@@ -310,7 +353,8 @@ def gen_c11(tier, rng):
     yield ('dbl-inf', 'pt_dbl %s' % E.jac(None, 1), None)
     yield ('valid-inf', 'pt_valid %s' % E.jac(None, 1), None)
     # scalars
-    ks = [0, 1, 2, 15, 16, 17, N - 1, N, N + 1, N + 26, (1 << 256) - 1, 1 << 255, (1 << 252) - 1]
+    ks = [0, 1, 2, 15, 16, 17, N - 1, N, N + 1, N + 26, (1 << 256) - 1, 1 << 255, (1 << 252) - 1,
+          1 << 64, 1 << 128, 1 << 192, (1 << 255) + 5, (1 << 256) - (1 << 64), (7 << 128) | 5, (7 << 192) | (5 << 64)]
     ks += [rng.getrandbits(256) for _ in range(12 if tier == 'thorough' else 3)]
     for k in ks:
         yield ('g_mul-scalar', 'g_mul %s' % H(k), None)
@@ -410,6 +454,7 @@ def gen_c19(tier, rng):
         yield ('doc-round-trip', 'sm2_pkcs8_pem_rt %s %s' % (H(d), rng.choice(['lf', 'crlf'])), None)
         yield ('doc-encode', 'sm2_spki_enc %s' % E.enc(Q, rng.random() < 0.5), None)
         yield ('doc-encode', 'sm2_pkcs8_enc %s' % H(d), None)
+    spki_prefix_ = '3059301306072a8648ce3d020106082a811ccf5501822d034200'
     # decoders reject: off-curve, wrong length, bad prefix, coordinate >= p
     Q = E.mul(rscalar(rng), E.G)
     good = bytes.fromhex(E.enc(Q))
@@ -425,6 +470,12 @@ def gen_c19(tier, rng):
     if Q[0] + P < (1 << 256):
         yield ('point-coord>=p', 'pk_new 04%s%s' % (H(Q[0] + P), H(Q[1])), None)
     yield ('point-coord>=p', 'pk_new 02%s' % H(P + 1), None)
+    for (sx, sy) in small_x_points():
+        yield ('point-coord>=p-same-residue', 'pk_new 04%s%s' % (H(sx + P), H(sy)), None)
+        yield ('point-coord>=p-same-residue', 'pk_new %s%s' % ('02' if sy % 2 == 0 else '03', H(sx + P)), None)
+        yield ('point-coord>=p-same-residue', 'pk_hex %s' % hx(('04' + H(sx + P) + H(sy)).encode()), None)
+        yield ('point-coord>=p-same-residue', 'sm2_spki_dec %s04%s%s' % (spki_prefix_, H(sx + P), H(sy)), None)
+        yield ('point-small-x-valid', 'pk_new 04%s%s' % (H(sx), H(sy)), None)
     for v in (0, N - 1, N, N + 1, (1 << 256) - 1):
         yield ('sk-out-of-range', 'sk_new %s' % H(v), None)
     for ln in (0, 1, 31, 33, 64):
@@ -433,6 +484,19 @@ def gen_c19(tier, rng):
     spki_prefix = '3059301306072a8648ce3d020106082a811ccf5501822d034200'
     yield ('doc-invalid-point', 'sm2_spki_dec %s04%s%s' % (spki_prefix, H(5), H(7)), None)
     yield ('doc-invalid-point', 'sm2_spki_dec %s05%s%s' % (spki_prefix, H(Q[0]), H(Q[1])), None)
+    # PKCS#8 document (canonical template) whose embedded public key is corrupted
+    p8 = bytes.fromhex(kc['0'][3])
+    for how in ('offcurve', 'prefix', 'range', 'zero'):
+        m = bytearray(p8)
+        if how == 'offcurve':
+            m[-1] ^= 1
+        elif how == 'prefix':
+            m[-65] = 5
+        elif how == 'range':
+            m[-64:-32] = bytes.fromhex(H(P))
+        else:
+            m[-64:] = bytes(64)
+        yield ('doc-invalid-embedded-point', 'sm2_pkcs8_dec %s' % bytes(m).hex(), None)
     for ln in (0, 1, 26, 27, 90):
         yield ('doc-truncated', 'sm2_spki_dec %s' % hx(bytes.fromhex(spki_prefix + E.enc(Q))[:ln]), None)
         yield ('doc-truncated', 'sm2_pkcs8_dec %s' % hx(bytes.fromhex(kc['0'][3])[:ln]), None)
